@@ -123,9 +123,9 @@ Definition live (h : string) : bool :=
                                      && forallb (fun d => String.eqb (fst (snd (snd d))) "str" && String.eqb (snd (snd (snd d))) "int") (snd drow)) dispatch) rt_ops
       end) (leaves_under h).
 
-(* names that are NOT live on the unchanged tree (DESIGN 12 #13, #14) *)
-Definition known_dead : list string :=
-  ["_float"; "implicit_return"; "normal_exit_for"; "normal_exit_while"; "enter_decorator"; "exit_decorator"].
+(* names that are NOT live (none since the fix: commits of DESIGN 12 #13, #14; the list is kept so that the
+   statement below stays the same shape) *)
+Definition known_dead : list string := [].
 
 Definition hook_names : list string := dedup all_names.
 Definition all_live_partial : bool := forallb (fun h => mem_str h known_dead || live h) hook_names.
